@@ -182,6 +182,7 @@ class Inliner:
         self.counter = 0
         self.inlined: List[str] = []
         self.caller_names: set = set()
+        self.unique_methods: set = set()
 
     # -- which helper does a call mean ----------------------------------------------------------------------------------
     def target(self, call: ast.Call, cls: Optional[ast.ClassDef]) -> Optional[Tuple[_Helper, Optional[ast.AST]]]:
@@ -198,6 +199,11 @@ class Inliner:
             for q, h in self.helpers.items():
                 if h.cls is not None and q == f'{f.value.id}.{f.attr}' and h.static:
                     return h, None
+            # <name>.helper(...): a new method whose name no other class of the module defines
+            cands = [h for q, h in self.helpers.items() if h.cls is not None and h.name == f.attr and not h.static
+                     and not h.classmethod]
+            if len(cands) == 1 and f.attr in self.unique_methods:
+                return cands[0], f.value
         return None
 
     def bind(self, h: _Helper, call: ast.Call, receiver: Optional[ast.AST]) -> Dict[str, ast.AST]:
@@ -970,6 +976,289 @@ def fuse_staging_lists(fn: ast.FunctionDef) -> bool:
     return changed[0]
 
 
+def scalarise_records(fn: ast.FunctionDef, records) -> bool:
+    """a local that only ever holds a record of a new NamedTuple / dataclass (bound by `r = Rec(..)` or
+    `r = r._replace(..)`) and is only read field by field is replaced by one local per field:
+    `r = Rec(a=e1, b=e2)` ==> `r__a = e1; r__b = e2`, `r.a` ==> `r__a`."""
+    if not records:
+        return False
+    binds: Dict[str, List[ast.stmt]] = {}
+    for n in _own_nodes(fn):
+        if isinstance(n, ast.Assign) and len(n.targets) == 1 and isinstance(n.targets[0], ast.Name):
+            binds.setdefault(n.targets[0].id, []).append(n)
+        elif isinstance(n, ast.AnnAssign) and isinstance(n.target, ast.Name) and n.value is not None:
+            binds.setdefault(n.target.id, []).append(n)
+    stored_elsewhere = {x.id for n in _own_nodes(fn) if not isinstance(n, ast.Assign)
+                        for x in ([n] if isinstance(n, ast.Name) and isinstance(n.ctx, ast.Store) else [])}
+    # names stored by for-targets, with-items etc. (any Store that is not the direct target of a plain assignment)
+    direct = {id(a.targets[0] if isinstance(a, ast.Assign) else a.target) for lst in binds.values() for a in lst}
+    other_stores = {n.id for n in _own_nodes(fn) if isinstance(n, ast.Name) and isinstance(n.ctx, ast.Store)
+                    and id(n) not in direct}
+    params = {a.arg for a in ast.walk(fn.args) if isinstance(a, ast.arg)}
+    changed = False
+    for r, assigns in binds.items():
+        if r in other_stores or r in params:
+            continue
+        cls = None
+        ok = True
+        noneable = False
+        for a in assigns:
+            v = a.value
+            if isinstance(v, ast.Call) and isinstance(v.func, ast.Name) and v.func.id in records and \
+                    not any(isinstance(x, ast.Starred) for x in v.args) and all(k.arg for k in v.keywords):
+                cls = cls or v.func.id
+                ok = ok and cls == v.func.id
+            elif isinstance(v, ast.Call) and isinstance(v.func, ast.Attribute) and v.func.attr == '_replace' and \
+                    isinstance(v.func.value, ast.Name) and v.func.value.id == r and not v.args and all(k.arg for k in v.keywords):
+                pass
+            elif isinstance(v, ast.Constant) and v.value is None:
+                noneable = True
+            else:
+                ok = False
+        if not ok or cls is None:
+            continue
+        fields = records[cls][0] if isinstance(records[cls], tuple) else records[cls]
+        defaults = records[cls][1] if isinstance(records[cls], tuple) else {}
+        # every other use is r.<field>  (or a test `r is None` / `r is not None` when r may be None)
+        uses_ok = True
+        parents = {}
+        for n in _own_nodes(fn):
+            for ch in ast.iter_child_nodes(n):
+                parents[id(ch)] = n
+        for n in _own_nodes(fn):
+            if isinstance(n, ast.Name) and n.id == r and isinstance(n.ctx, ast.Load):
+                par = parents.get(id(n))
+                if isinstance(par, ast.Attribute) and par.value is n and par.attr in fields and isinstance(par.ctx, ast.Load):
+                    continue
+                if isinstance(par, ast.Attribute) and par.attr == '_replace':
+                    continue
+                if noneable and isinstance(par, ast.Compare) and len(par.ops) == 1 and par.left is n and \
+                        isinstance(par.ops[0], (ast.Is, ast.IsNot)) and isinstance(par.comparators[0], ast.Constant) and \
+                        par.comparators[0].value is None:
+                    continue
+                uses_ok = False
+        if not uses_ok:
+            continue
+
+        class Fld(ast.NodeTransformer):
+            def visit_Compare(self, n):
+                n = self.generic_visit(n)
+                if noneable and len(n.ops) == 1 and isinstance(n.left, ast.Name) and n.left.id == r and \
+                        isinstance(n.ops[0], (ast.Is, ast.IsNot)) and isinstance(n.comparators[0], ast.Constant) and \
+                        n.comparators[0].value is None:
+                    flag = ast.Name(id=f'{r}__is_none', ctx=ast.Load())
+                    return ast.copy_location(flag if isinstance(n.ops[0], ast.Is) else
+                                             ast.UnaryOp(op=ast.Not(), operand=flag), n)
+                return n
+
+            def visit_Attribute(self, n):
+                n = self.generic_visit(n)
+                if isinstance(n.value, ast.Name) and n.value.id == r and n.attr in fields and isinstance(n.ctx, ast.Load):
+                    return ast.copy_location(ast.Name(id=f'{r}__{n.attr}', ctx=ast.Load()), n)
+                return n
+
+        def rewrite(stmts):
+            out = []
+            for st in stmts:
+                for fld in ('body', 'orelse', 'finalbody'):
+                    sub = getattr(st, fld, None)
+                    if isinstance(sub, list) and sub and isinstance(sub[0], ast.stmt):
+                        setattr(st, fld, rewrite(sub))
+                for hd in getattr(st, 'handlers', []) or []:
+                    hd.body = rewrite(hd.body)
+                if any(st is a for a in assigns):
+                    v = st.value
+                    pairs = []
+                    if isinstance(v, ast.Constant):      # r = None
+                        new = [ast.Assign(targets=[ast.Name(id=f'{r}__is_none', ctx=ast.Store())],
+                                          value=ast.Constant(value=True))]
+                        for s_ in new:
+                            ast.copy_location(s_, st)
+                            ast.fix_missing_locations(s_)
+                        out += new
+                        continue
+                    if isinstance(v.func, ast.Name):
+                        for f_, e in zip(fields, v.args):
+                            pairs.append((f_, e))
+                        pairs += [(k.arg, k.value) for k in v.keywords]
+                        given = {p_ for p_, _e in pairs}
+                        missing = [f_ for f_ in fields if f_ not in given]
+                        if any(f_ not in defaults for f_ in missing):
+                            out.append(st)
+                            continue
+                        pairs += [(f_, copy.deepcopy(defaults[f_])) for f_ in missing]
+                        if noneable:
+                            pairs.append(('is_none', ast.Constant(value=False)))
+                    else:
+                        pairs = [(k.arg, k.value) for k in v.keywords]
+                    if any(p not in fields and p != 'is_none' for p, _ in pairs):
+                        out.append(st)
+                        continue
+                    # evaluate every new value before any field is overwritten
+                    tmp = [ast.Assign(targets=[ast.Name(id=f'{r}__{p}__new', ctx=ast.Store())], value=Fld().visit(e))
+                           for p, e in pairs]
+                    fin = [ast.Assign(targets=[ast.Name(id=f'{r}__{p}', ctx=ast.Store())],
+                                      value=ast.Name(id=f'{r}__{p}__new', ctx=ast.Load())) for p, _ in pairs]
+                    new = tmp + fin if len(pairs) > 1 and isinstance(v.func, ast.Attribute) else \
+                        [ast.Assign(targets=[ast.Name(id=f'{r}__{p}', ctx=ast.Store())], value=Fld().visit(e))
+                         for p, e in pairs]
+                    for s_ in new:
+                        ast.copy_location(s_, st)
+                        ast.fix_missing_locations(s_)
+                    out += new
+                    continue
+                out.append(Fld().visit(st))
+            return out
+        fn.body = rewrite(fn.body)
+        changed = True
+    return changed
+
+
+def functional_to_loops(fn: ast.FunctionDef, helper_names=()) -> bool:
+    """`x = reduce(lambda acc, v: E, IT, INIT)`  ==>  `x = INIT; for v in IT: x = E[acc := x]`
+    `for v in chain(A, B, ..): BODY`           ==>  `for v in A: BODY; for v in B: BODY; ..`
+    `for v in (A if c else ()): BODY`          ==>  `if c: for v in A: BODY`
+    (statement level only; what is computed, and in which order, is unchanged)"""
+    changed = [False]
+
+    def is_call(e, names) -> bool:
+        return isinstance(e, ast.Call) and ((isinstance(e.func, ast.Name) and e.func.id in names) or (
+            isinstance(e.func, ast.Attribute) and e.func.attr in names and isinstance(e.func.value, ast.Name) and
+            e.func.value.id in ('functools', 'itertools')))
+
+    def empty(e) -> bool:
+        return (isinstance(e, (ast.Tuple, ast.List)) and not e.elts) or (
+            isinstance(e, ast.Call) and isinstance(e.func, ast.Name) and e.func.id in ('tuple', 'list', 'iter') and
+            not e.args)
+
+    def block(stmts: List[ast.stmt]) -> List[ast.stmt]:
+        out: List[ast.stmt] = []
+        for st in stmts:
+            for fld in ('body', 'orelse', 'finalbody'):
+                sub = getattr(st, fld, None)
+                if isinstance(sub, list) and sub and isinstance(sub[0], ast.stmt):
+                    setattr(st, fld, block(sub))
+            for hd in getattr(st, 'handlers', []) or []:
+                hd.body = block(hd.body)
+            if isinstance(st, ast.Assign) and len(st.targets) == 1 and isinstance(st.targets[0], ast.Name) and \
+                    is_call(st.value, ('reduce',)) and len(st.value.args) == 3 and not st.value.keywords and \
+                    isinstance(st.value.args[0], ast.Lambda) and len(st.value.args[0].args.args) == 2:
+                lam, it, init = st.value.args
+                x = st.targets[0].id
+                acc, v = lam.args.args[0].arg, lam.args.args[1].arg
+                if not any(isinstance(y, ast.Name) and y.id == x for y in ast.walk(it)) and \
+                        not any(isinstance(y, ast.Name) and y.id == x for y in ast.walk(lam.body)):
+                    body = _Rename({}, {acc: ast.Name(id=x, ctx=ast.Load())}).visit(copy.deepcopy(lam.body))
+                    new = [ast.Assign(targets=[ast.Name(id=x, ctx=ast.Store())], value=init),
+                           ast.For(target=ast.Name(id=v, ctx=ast.Store()), iter=it,
+                                   body=[ast.Assign(targets=[ast.Name(id=x, ctx=ast.Store())], value=body)], orelse=[])]
+                    if isinstance(init, ast.Name) and init.id == x:
+                        new = new[1:]
+                    for s_ in new:
+                        ast.copy_location(s_, st)
+                        ast.fix_missing_locations(s_)
+                    changed[0] = True
+                    out += block(new)
+                    continue
+            # x = x + e  is  x += e
+            if isinstance(st, ast.Assign) and len(st.targets) == 1 and isinstance(st.targets[0], ast.Name) and \
+                    isinstance(st.value, ast.BinOp) and isinstance(st.value.op, (ast.Add, ast.Sub)) and \
+                    isinstance(st.value.left, ast.Name) and st.value.left.id == st.targets[0].id and \
+                    not any(isinstance(y, ast.Name) and y.id == st.targets[0].id for y in ast.walk(st.value.right)):
+                new_st = ast.copy_location(ast.AugAssign(target=ast.Name(id=st.targets[0].id, ctx=ast.Store()),
+                                                         op=st.value.op, value=st.value.right), st)
+                ast.fix_missing_locations(new_st)
+                changed[0] = True
+                out.append(new_st)
+                continue
+            # x = A if c else B  with a helper call in an arm: the arms as statements (the inliner reads them then)
+            if isinstance(st, (ast.Assign, ast.Return)) and isinstance(getattr(st, 'value', None), ast.IfExp) and \
+                    helper_names and any(isinstance(y, ast.Call) and (
+                        (isinstance(y.func, ast.Name) and y.func.id in helper_names) or
+                        (isinstance(y.func, ast.Attribute) and y.func.attr in helper_names))
+                        for arm in (st.value.body, st.value.orelse) for y in ast.walk(arm)):
+                def arm_stmt(e):
+                    return ast.Assign(targets=copy.deepcopy(st.targets), value=e) if isinstance(st, ast.Assign) \
+                        else ast.Return(value=e)
+                new_if = ast.If(test=st.value.test, body=[arm_stmt(st.value.body)], orelse=[arm_stmt(st.value.orelse)])
+                ast.copy_location(new_if, st)
+                ast.fix_missing_locations(new_if)
+                changed[0] = True
+                out += block([new_if])
+                continue
+            if isinstance(st, ast.For) and not st.orelse and not _own_break(st.body):
+                it = st.iter
+                # chain.from_iterable(E): one more loop level; a generator expression E is written as its loops
+                if isinstance(it, ast.Call) and isinstance(it.func, ast.Attribute) and it.func.attr == 'from_iterable' and \
+                        len(it.args) == 1 and not it.keywords and 'chain' in ast.unparse(it.func.value):
+                    src = it.args[0]
+                    inner_loop = lambda over: ast.For(target=copy.deepcopy(st.target), iter=over,
+                                                      body=copy.deepcopy(st.body), orelse=[])
+                    if isinstance(src, (ast.GeneratorExp, ast.ListComp)):
+                        body_ = [inner_loop(src.elt)]
+                        for gen in reversed(src.generators):
+                            for tst in reversed(gen.ifs):
+                                body_ = [ast.If(test=tst, body=body_, orelse=[])]
+                            body_ = [ast.For(target=gen.target, iter=gen.iter, body=body_, orelse=[])]
+                        new = body_
+                    else:
+                        tmpn = ast.Name(id=f'group{id(st) % 9973}', ctx=ast.Store())
+                        new = [ast.For(target=tmpn, iter=src, body=[inner_loop(ast.Name(id=tmpn.id, ctx=ast.Load()))],
+                                       orelse=[])]
+                    for s_ in new:
+                        ast.copy_location(s_, st)
+                        ast.fix_missing_locations(s_)
+                    changed[0] = True
+                    out += block(new)
+                    continue
+                if is_call(it, ('chain',)) and it.args and not it.keywords and \
+                        not any(isinstance(a, ast.Starred) for a in it.args):
+                    new = [ast.copy_location(ast.For(target=copy.deepcopy(st.target), iter=a,
+                                                     body=copy.deepcopy(st.body), orelse=[]), st) for a in it.args]
+                    for s_ in new:
+                        ast.fix_missing_locations(s_)
+                    changed[0] = True
+                    out += block(new)
+                    continue
+                if isinstance(it, ast.IfExp) and (empty(it.orelse) or empty(it.body)):
+                    test, arm = (it.test, it.body) if empty(it.orelse) else (ast.UnaryOp(op=ast.Not(), operand=it.test),
+                                                                             it.orelse)
+                    loop = ast.copy_location(ast.For(target=st.target, iter=arm, body=st.body, orelse=[]), st)
+                    new_if = ast.copy_location(ast.If(test=test, body=[loop], orelse=[]), st)
+                    ast.fix_missing_locations(new_if)
+                    changed[0] = True
+                    out += block([new_if])
+                    continue
+            out.append(st)
+        return out
+    fn.body = block(fn.body)
+    # guard clauses inside loops: `if T: continue` followed by REST  ==>  `if not T: REST`
+    from .emit import negate
+
+    def unguard(stmts: List[ast.stmt], in_loop: bool) -> List[ast.stmt]:
+        out: List[ast.stmt] = []
+        for k, st in enumerate(stmts):
+            for fld in ('body', 'orelse', 'finalbody'):
+                sub = getattr(st, fld, None)
+                if isinstance(sub, list) and sub and isinstance(sub[0], ast.stmt):
+                    setattr(st, fld, unguard(sub, in_loop if not isinstance(st, (ast.For, ast.While)) or fld != 'body'
+                                             else True))
+            for hd in getattr(st, 'handlers', []) or []:
+                hd.body = unguard(hd.body, in_loop)
+            if in_loop and isinstance(st, ast.If) and not st.orelse and len(st.body) == 1 and \
+                    isinstance(st.body[0], ast.Continue) and k + 1 < len(stmts):
+                rest = unguard(list(stmts[k + 1:]), in_loop)
+                new_if = ast.copy_location(ast.If(test=negate(st.test), body=rest, orelse=[]), st)
+                ast.fix_missing_locations(new_if)
+                changed[0] = True
+                out.append(new_if)
+                return out
+            out.append(st)
+        return out
+    fn.body = unguard(fn.body, False)
+    return changed[0]
+
+
 def normalise_module(tree: ast.Module, modname: str) -> Dict[str, List[str]]:
     """in place; returns {function qualname: [helpers read through / 'unrolled']} for the record"""
     inv = inventory().get(modname)
@@ -980,11 +1269,31 @@ def normalise_module(tree: ast.Module, modname: str) -> Dict[str, List[str]]:
     changed = {q for q, (n, c) in funcs.items() if q in new or inv.get(q) != body_digest(n)}
     if not changed:
         return {}
+    known_classes = set((inv.get('__classes__') or '').split())
+    new_classes = {c_.name: c_ for c_ in tree.body if isinstance(c_, ast.ClassDef) and c_.name not in known_classes}
     helpers = {q: _Helper(q, n, c) for q, (n, c) in funcs.items()
-               if q in new and n.name.startswith('_') and not (n.name.startswith('__') and n.name.endswith('__'))}
+               if q in new and not (n.name.startswith('__') and n.name.endswith('__')) and
+               (n.name.startswith('_') or (c is not None and c.name in new_classes))}
+    # record types among the new classes: fields are the annotated names of the class body, in order
+    records: Dict[str, List[str]] = {}
+    for cname, cnode in new_classes.items():
+        flds = [b.target.id for b in cnode.body if isinstance(b, ast.AnnAssign) and isinstance(b.target, ast.Name)]
+        dflt = {b.target.id: b.value for b in cnode.body if isinstance(b, ast.AnnAssign) and
+                isinstance(b.target, ast.Name) and b.value is not None and isinstance(b.value, ast.Constant)}
+        bases = ' '.join(ast.unparse(b) for b in cnode.bases)
+        decos = ' '.join(ast.unparse(d) for d in cnode.decorator_list)
+        if flds and ('NamedTuple' in bases or 'dataclass' in decos):
+            records[cname] = (flds, dflt)
+    method_count: Dict[str, int] = {}
+    for c_ in tree.body:
+        if isinstance(c_, ast.ClassDef):
+            for m_ in c_.body:
+                if isinstance(m_, ast.FunctionDef):
+                    method_count[m_.name] = method_count.get(m_.name, 0) + 1
     record: Dict[str, List[str]] = {}
     from .unroll import unroll_in_place
     inl = Inliner(helpers)
+    inl.unique_methods = {k for k, v in method_count.items() if v == 1}
     # literal tables bound once at module level (a dispatch table moved out of the function)
     mod_tables: Dict[str, ast.AST] = {}
     counts: Dict[str, int] = {}
@@ -1010,6 +1319,9 @@ def normalise_module(tree: ast.Module, modname: str) -> Dict[str, List[str]]:
             fn, cls = funcs[q]
             try:
                 before = len(inl.inlined)
+                if functional_to_loops(fn, {h_.name for h_ in helpers.values()}):
+                    record.setdefault(q, []).append('reduce / chain written as loops')
+                    any_change = True
                 if unroll_in_place(fn, extra_tables=mod_tables):
                     record.setdefault(q, []).append('table loop written out')
                     any_change = True
@@ -1029,6 +1341,9 @@ def normalise_module(tree: ast.Module, modname: str) -> Dict[str, List[str]]:
                     if env_c and used & set(env_c):
                         _Rename({}, env_c).visit(fn)
                         record.setdefault(q, []).append('module-level literal read in place')
+                if scalarise_records(fn, records):
+                    any_change = True
+                    record.setdefault(q, []).append('record read field by field')
                 if fuse_staging_lists(fn):
                     any_change = True
                     record.setdefault(q, []).append('staging list fused')
@@ -1067,5 +1382,6 @@ def write_inventory(root: str, path: str = _INV_PATH) -> int:
                     if isinstance(t, ast.Name):
                         tops.append(t.id)
             inv['.'.join(parts)]['__toplevel__'] = ' '.join(sorted(set(tops)))
+            inv['.'.join(parts)]['__classes__'] = ' '.join(sorted(c_.name for c_ in tree.body if isinstance(c_, ast.ClassDef)))
     json.dump(inv, open(path, 'w'), indent=0, sort_keys=True)
     return n
